@@ -22,13 +22,14 @@ CONSTANTS
   CPlans <- Plans_two
   TUnits = {"s"}
   KRegs <- KRegs6
-  Outs <- Outs_one
+  Outs <- Outs_three
   Modes = {"inline", "named", "subs", "mixed"}
   EqTemplates = {}
   EqWrongs = {}
   CallKinds <- Calls_none
   MaxCalls = 0
   Laws = {"arrhenius", "eyring", "alt"}
+  TSources = {"param", "subs", "ramp"}
 INVARIANT RegistryIndependent
 INVARIANT WrittenIsPhysical
 INVARIANT RefusedOnlyIfWrongDimension
